@@ -106,7 +106,7 @@ theorem add_missing_idem (knows : Str → Bool) (t : Comp) :
     cases knows k <;> simp
   rw [addMissing_eq knows (addMissing knows t), h]
   cases t
-  simp [addMissing]
+  simp [addMissing, Comp.name, Comp.props, Comp.subs]
 
 /-! ### non-vacuity -/
 
